@@ -18,11 +18,11 @@ cargo test --workspace --offline --exclude walrus-fuzz-utils >/tmp/_suite_$NAME.
 grep -E "^test result" /tmp/_suite_$NAME.log | awk '{p+=$4; f+=$6} END {print "passed",p,"failed",f}'
 cp /tmp/_demo_$NAME.rs $DEMO
 echo "== demo with change"
-cargo test -p walrus-tests --offline --test seeded_demo >/tmp/_demo1_$NAME.log 2>&1; S2=$?
+cargo test -p walrus-tests --offline --test seeded_demo ${DEMO_FEATURES:-} >/tmp/_demo1_$NAME.log 2>&1; S2=$?
 grep -E "^test result|panicked" /tmp/_demo1_$NAME.log | head -5
 git apply -R "$OUT/patch.diff"
 echo "== demo without change"
-cargo test -p walrus-tests --offline --test seeded_demo >/tmp/_demo2_$NAME.log 2>&1; S3=$?
+cargo test -p walrus-tests --offline --test seeded_demo ${DEMO_FEATURES:-} >/tmp/_demo2_$NAME.log 2>&1; S3=$?
 grep -E "^test result" /tmp/_demo2_$NAME.log | head -3
 echo "suite_with_change_exit=$S1 demo_with_change_exit=$S2 demo_without_exit=$S3"
 if [ $S1 -eq 0 ] && [ $S2 -ne 0 ] && [ $S3 -eq 0 ]; then
